@@ -52,22 +52,32 @@ MANIFEST = {
                  "(warm and cold clauses, resets, retain snapshot; counterexamples for the clauses the code violates) "
                  "+ differential correspondence of the model with the real runtime on generated projects and "
                  "histories + the property's own oracle (fresh twin, warm rule, power cycle) on the implementation",
-    "level_text": "Proved for every runtime state and configuration of the modelled fragment, without bound: c09_warm_globals / "
-                  "c09_warm_program_vars (after restart(Warm) exactly the RETAIN/PERSISTENT globals and program variables with "
-                  "retainable values keep their value, every other one has its declared initial value), c09_cold_* (cold = "
-                  "declared initial values; FB instances re-created with initial members), c09_restart_resets (time, fault "
-                  "latch, cycle counter, frames, task state), c09_snapshot_* (save/load touches exactly the retained globals). "
-                  "The clauses the code violates are proved false on concrete witnesses (c09_counterexample_*) and true under "
-                  "explicit guards (*_partial). Each run replays the witnesses on the real runtime and compares model and "
-                  "runtime step by step on generated projects/histories, including a freshly built twin after every cold restart.",
+    "level_text": "Proved for every runtime state and every well-formed declaration set of the modelled fragment, without "
+                  "bound (induction over the declaration lists): c09_warm (= c09_warm_globals_kept/_reset, "
+                  "c09_warm_program_vars_kept/_reset via c09_program_var): after restart(Warm) exactly the RETAIN/PERSISTENT "
+                  "globals and program variables with retainable values keep their value, every other one has its declared "
+                  "initial value; c09_cold_globals / c09_cold_program_vars: cold = declared initial values; "
+                  "c09_restart_resets: time, fault latch, cycle counter, frames, task state reset, everything static "
+                  "untouched; c09_old_instances_untouched and c09_program_fb_recreated: what happens to FB instances; "
+                  "c09_cold_fresh_partial: under the guards (no VAR_CONFIG values, SINGLE initial values FALSE, %Q/%M images "
+                  "zero) a cold restart and a fresh build agree on every variable path, FB member, clock, latch, counter and "
+                  "task state; c09_bindings_live_partial: bindings rooted in globals stay connected; "
+                  "c09_power_cycle_globals_partial: save+load moves exactly the retained retainable GLOBALS. The violated "
+                  "clauses are refuted on concrete witnesses inside the model (c09_counterexample_bindings, _last_single, "
+                  "_images, _config_init, _fb_member, _power_cycle; kernel-evaluated) and the same six witnesses are "
+                  "replayed on the real runtime in every run (cases 0-5). Each run compares model and runtime step by step "
+                  "on generated projects/histories, including a freshly built twin after every cold restart.",
     "level_note": "Six OPEN known findings (known_findings.json): restart re-creates instances so I/O, VAR_ACCESS and task-FB "
                   "bindings go stale; cold restart leaves last_single=false; %Q/%M images survive; the retain snapshot covers "
                   "globals only; FB-member RETAIN is ignored (program level) or over-applied (RETAIN global FB); VAR_CONFIG "
-                  "values are lost by any restart.  'Same outputs for every continuation' is proved only as equality of the "
-                  "state every cycle reads (observation by path) under the guards; that equal observations give equal "
-                  "continuations is tested by the twin run, not proved.  Trusted: Lean kernel, the hand-written model "
-                  "(validated only by the differential run, whose generator bounds what it sees), retain codec = identity "
-                  "(C10).  The threaded resource loop of scheduler.rs is not executed; its restart step (restart then "
+                  "values are lost by any restart.  The model reproduces these defects (it is faithful to the code), so a "
+                  "repair of any of them shows up as a model/implementation disagreement until the model is updated.  "
+                  "'Same outputs for every continuation' is proved only as equality of the state every cycle reads "
+                  "(observation by path) under the guards; that equal observations give equal continuations is tested by "
+                  "the twin run, not proved (the cycle model is test scaffolding for straight-line programs).  Trusted: Lean "
+                  "kernel, the hand-written model (validated only by the differential run, whose generator bounds what it "
+                  "sees: no overflow, no REF_TO, FB nesting depth 1), retain codec = identity (C10).  The threaded resource "
+                  "loop of scheduler.rs and run.rs start-up are not executed; their restart step (restart then "
                   "load_retain_store) is replayed through the same public calls.",
 }
 
